@@ -284,7 +284,8 @@ class Program:
 
 
 class Emitter:
-    def __init__(self, prog, contracts=None, loopc=None, nobody=(), hooks=None, force_globals=()):
+    def __init__(self, prog, contracts=None, loopc=None, nobody=(), hooks=None, force_globals=(), stubs=()):
+        self.stubs = set(stubs)
         self.p = prog
         self.contracts = contracts or {}
         self.loopc = loopc or {}
@@ -1217,6 +1218,91 @@ class Emitter:
             return names[k - 1]
         return re.sub(r'\$(\d+)', sub, c)
 
+    def stub_text(self, info):
+        """The contract of a function applied at its call sites in STUB FORM: a body that asserts the preconditions, havocs exactly the
+        assigns targets, and assumes the postconditions (__CPROVER_old values captured before the havoc).  Same meaning as
+        goto-instrument's --replace-call-with-contract; used where the generic write-set havoc of dfcc makes the formula explode
+        (pointer-valued assigns targets).  The stub's writes are still checked against the frame of the function under contract."""
+        c = self.contract_text(info)
+        cn = info['cname']
+        proto = self.proto(info)
+        rts = proto[:proto.index(cn + '(')].strip()
+        clauses = []
+        i = 0
+        while True:
+            m = re.compile(r'__CPROVER_(requires|assigns|ensures)\s*\(').search(c, i)
+            if not m:
+                break
+            j = m.end(); depth = 1
+            while depth:
+                ch = c[j]
+                depth += ch == '('
+                depth -= ch == ')'
+                j += 1
+            clauses.append((m.group(1), c[m.end():j - 1]))
+            i = j
+        if not clauses:
+            raise Drift('stub form requested for %s but it has no contract' % cn)
+        olds = []
+
+        def take_olds(e):
+            out = ''; k = 0
+            while True:
+                q = e.find('__CPROVER_old(', k)
+                if q < 0:
+                    return out + e[k:]
+                j = q + len('__CPROVER_old('); depth = 1
+                while depth:
+                    depth += e[j] == '('
+                    depth -= e[j] == ')'
+                    j += 1
+                inner = e[q + len('__CPROVER_old('):j - 1]
+                if inner not in olds:
+                    olds.append(inner)
+                out += e[k:q] + 'verif_old_%d' % olds.index(inner)
+                k = j
+        ens = [take_olds(e).replace('__CPROVER_return_value', 'verif_ret') for kind, e in clauses if kind == 'ensures']
+        b = '{\n  /* contract of %s applied in stub form */\n' % cn
+        for kind, e in clauses:
+            if kind == 'requires':
+                b += '  __CPROVER_assert(%s, "precondition of %s (contract applied at the call, stub form)");\n' % (e, cn)
+        for k, e in enumerate(olds):
+            b += '  __typeof__(%s) verif_old_%d = %s;\n' % (e, k, e)
+        n = 0
+        for kind, e in clauses:
+            if kind != 'assigns':
+                continue
+            depth = 0; cur = ''; tg = []
+            for ch in e:
+                if ch == ',' and depth == 0:
+                    tg.append(cur); cur = ''
+                    continue
+                depth += ch == '('
+                depth -= ch == ')'
+                cur += ch
+            if cur.strip():
+                tg.append(cur)
+            for t in tg:
+                t = t.strip()
+                m = re.match(r'__CPROVER_object_whole\((.*)\)$', t)
+                if m:
+                    b += '  __CPROVER_havoc_object(%s);\n' % m.group(1)
+                    continue
+                m = re.match(r'__CPROVER_object_upto\((.*),([^,]*)\)$', t)
+                if m:
+                    b += '  __CPROVER_havoc_slice(%s, %s);\n' % (m.group(1), m.group(2))
+                    continue
+                b += '  { __typeof__(%s) verif_nd_%d; %s = verif_nd_%d; }\n' % (t, n, t, n)
+                n += 1
+        if rts != 'void':
+            b += '  %s verif_ret;\n' % rts
+        for e in ens:
+            b += '  __CPROVER_assume(%s);\n' % e
+        if rts != 'void':
+            b += '  return verif_ret;\n'
+        self.hit('contract applied in stub form (assert requires; havoc assigns; assume ensures)')
+        return proto + '\n' + b + '}\n'
+
     def ctor_inits(self, info, o):
         out = ''
         for c in o.get('inner', []):
@@ -1336,7 +1422,9 @@ class Emitter:
             emit_g(g)
         protos = []
         for cn, (info, has) in done.items():
-            protos.append(self.proto(info) + ('\n' + self.contract_text(info) if not has else '') + ';\n')
+            protos.append(self.proto(info) + ('\n' + self.contract_text(info) if not has and cn not in self.stubs else '') + ';\n')
+            if not has and cn in self.stubs:
+                bodies[cn] = self.stub_text(info)
         # records: emit those needed, in dependency order (fields may need other records)
         rec_out = OrderedDict()
 
@@ -1531,9 +1619,9 @@ def _engine_objs_for_consts(td, inc, skip=()):
     return objs
 
 
-def translate(cpps, roots, contracts=None, loopc=None, nobody=(), hooks=None, force_globals=()):
+def translate(cpps, roots, contracts=None, loopc=None, nobody=(), hooks=None, force_globals=(), stubs=()):
     prog = Program(cpps)
-    em = Emitter(prog, contracts, loopc, nobody, hooks, force_globals)
+    em = Emitter(prog, contracts, loopc, nobody, hooks, force_globals, stubs)
     text = em.emit(roots)
     info = {'functions': [(cn, bool(has)) for cn, (i, has) in em.done.items()],
             'loops': em.loops, 'rule_hits': em.rule_hits, 'bindings': list(em.bindings_used),
